@@ -32,6 +32,19 @@ Theorem C20_transform_matrix :
 Proof. exact @transform_4d_matrix. Qed.
 Print Assumptions C20_transform_matrix.
 
+(* Without any assumption on scikit-learn's transform beyond "one row out per row in": location (n, h, w) of
+   transform(x) is the row the library returned at the position where it was handed the activation vector of (n, h, w). *)
+Theorem C20_transform_location :
+  forall (X : Type) (G : list X -> list (list Qc)) g nmf bs C H W (xs : list X) n h w d,
+    rowwise G g -> (forall M, length (nmf M) = length M) ->
+    (1 <= bs)%nat -> (1 <= H)%nat -> (1 <= W)%nat -> (n < length xs)%nat -> (h < H)%nat -> (w < W)%nat ->
+    let M := flatten_nhw (map (fun x => chw_to_hwc C H W (g x)) xs) in
+    let k := (n * (H * W) + h * W + w)%nat in
+    nth w (nth h (nth n (transform_4d G nmf bs C H W xs) []) []) [] = nth k (nmf M) [] /\
+    nth k M [] = act_at C H W (g (nth n xs d)) h w.
+Proof. exact @transform_4d_location. Qed.
+Print Assumptions C20_transform_location.
+
 Theorem C20_reshape_roundtrip :
   forall (T : Type) (H W : nat) (a : list (list (list T))),
     (1 <= H)%nat -> (1 <= W)%nat -> shape_nhw H W a -> reshape_nhw H W (flatten_nhw a) = a.
